@@ -483,8 +483,9 @@ class Directive(utils.NiceRepr):
             False
         """
         # Flag extracted directives as inline iff the text contains non-comments
+        # (empty lines, e.g. bare prompts used as spacing, are not code)
         inline = not all(line.strip().startswith('#')
-                         for line in text.splitlines())
+                         for line in text.splitlines() if line.strip())
         #
         for comment in static.extract_comments(text):
             # remove the first comment character and see if the comment matches
